@@ -38,7 +38,8 @@ META = {"C04": {
                     "the controller is reset at the start of each step, as the interpreter does"],
     "probes": ["request_executed", "request_planned", "request_new", "cutoff_then_step",
                "guard_false_with_dependents", "nested_request", "real_guard_false", "abandon_wired",
-               "phase_made_by_copy", "guard_value_not_a_python_bool", "inner_stepper_ran_inside_a_step"],
+               "phase_made_by_copy", "guard_value_not_a_python_bool", "inner_stepper_ran_inside_a_step",
+               "controller_code_with_asserts_stripped", "second_target_object", "stale_step_closed_inside_a_later_step"],
 }}
 
 
@@ -91,6 +92,7 @@ class Monitor:
         self.p_false = 0.0
         self.inner = None
         self.p_inner = 0.0
+        self.cur_target = None
 
     def add_phase(self, name, ids, deps, kinds, anc, literal_false):
         self.phases[name] = dict(ids=ids, idx={s: i for i, s in enumerate(ids)}, deps=deps, kinds=kinds,
@@ -271,17 +273,50 @@ class Monitor:
 
 
 class SimTarget:
-    def __init__(self, mon):
+    """One controller may be handed different target objects over its life; each step belongs to the target
+    it was started with."""
+
+    def __init__(self, mon, tag=0):
         self._mon = mon
+        self._tag = tag
+
+    def _mine(self, what, stmt):
+        if self._mon.cur_target is not None and self._mon.cur_target != self._tag:
+            self._mon.viol("wrong-target", "%s(%r) arrived at target %d, the step was started with target %d"
+                           % (what, stmt.id, self._tag, self._mon.cur_target))
 
     def evaluate_condition(self, stmt):
+        self._mine("evaluate_condition", stmt)
         return self._mon.on_cond(stmt)
 
     def __getattr__(self, name):
         if name.startswith("exec_"):
             mon = self._mon
-            return lambda stmt: mon.on_exec(name, stmt)
+
+            def call(stmt):
+                self._mine(name, stmt)
+                return mon.on_exec(name, stmt)
+            return call
         raise AttributeError(name)
+
+
+_NOASSERT = [None]
+
+
+def _controller_without_asserts():
+    """dagrt.language compiled the way `python -O` compiles it (no assert statements), as a second module
+    object; its ExecutionController works on the ordinary statement and phase objects."""
+    if _NOASSERT[0] is None:
+        import types
+        import dagrt.language as real
+        with open(real.__file__) as f:
+            src = f.read()
+        mod = types.ModuleType("dagrt.language")
+        mod.__file__ = real.__file__
+        mod.__package__ = "dagrt"
+        exec(compile(src, real.__file__, "exec", optimize=1), mod.__dict__)
+        _NOASSERT[0] = mod.ExecutionController
+    return _NOASSERT[0]
 
 
 def make_sim_interp(code, mon):
@@ -554,12 +589,23 @@ def run_c04(ctx):
     max_visits = 0
     prev_cut = False
 
+    with tape.span("process_config"):
+        # process configuration: python -O strips assert statements (and whatever they do) from dagrt's code
+        EC = ExecutionController
+        if tape.chance(0.2, "asserts_stripped"):
+            EC = _controller_without_asserts()
+            ctx.count("probe:controller_code_with_asserts_stripped")
+            ctx.count("fault:python_O")
     if mode == "direct":
-        ec = ExecutionController(code)
-        target = SimTarget(mon)
+        ec = EC(code)
+        targets = [SimTarget(mon, 0), SimTarget(mon, 1)]
         for step in range(n_steps):
             with tape.span("step"):
                 ec.reset()
+                mon.cur_target = tape.draw(2, "which_target") if tape.chance(0.4, "other_target") else 0
+                if mon.cur_target:
+                    ctx.count("probe:second_target_object")
+                target = targets[mon.cur_target]
                 pname = sorted(phases)[tape.draw(len(phases), "stepphase")]
                 ph_obj = phases[pname]
                 pn = mon.phases[pname]["n"]
@@ -600,8 +646,11 @@ def run_c04(ctx):
                 max_visits = max(max_visits, len(mon.visited))
     else:
         interp = make_sim_interp(code, mon)
+        if EC is not ExecutionController:
+            interp.exec_controller = EC(code)
         interp.set_up(0, 1, {})
         if mode == "wired_single":
+            stale = None
             for step in range(n_steps):
                 with tape.span("step"):
                     mon.begin_step(list(sinks_of[interp.next_phase]), interp.next_phase)
@@ -615,8 +664,17 @@ def run_c04(ctx):
                         sgen = interp.run_single_step()
                         for ev in sgen:
                             mon.received_events.append(ev)
+                            if stale is not None and tape.chance(0.5, "close_stale_here"):
+                                # a step abandoned earlier was left suspended; its generator is closed only
+                                # now, while this step is suspended at an event of its own
+                                stale.close()
+                                stale = None
+                                ctx.count("probe:stale_step_closed_inside_a_later_step")
                             if abandon and tape.chance(0.5, "abandon_here"):
-                                sgen.close()
+                                if tape.chance(0.5, "leave_suspended"):
+                                    stale = sgen
+                                else:
+                                    sgen.close()
                                 cut = True
                                 ctx.count("fault:cutoff_abandon")
                                 ctx.count("probe:abandon_wired")
